@@ -7,6 +7,7 @@ import Cgp.Executable
 import Cgp.GatewaySpec
 import Cgp.Proofs.C02
 import Cgp.Proofs.C16
+import Cgp.Props.C01
 namespace Cgp.Props.C16
 open Cgp Cgp.Xdr Cgp.Gateway Cgp.Executable
 open Cgp.Proofs.C02 Cgp.Proofs.C16
@@ -208,5 +209,132 @@ theorem no_effect_after_executed (x : XWorld) (ops : List (XOp σ)) (c i : Bytes
     (h0 : x.w.st.approvals c i = .executed) :
     deliveries c i ops (xrun H V x ops).2 = 0 := by
   exact (deliveries_bound H V x ops c i).2 h0
+
+/-! ### end to end: an application's effect was signed -/
+
+def xtrace (x : XWorld) : List (XOp σ) → List (XWorld × XOp σ × Bool)
+  | [] => []
+  | op :: ops => (x, op, (xstep H V x op).2) :: xtrace (xstep H V x op).1 ops
+
+def XOp.Typed : XOp σ → Prop
+  | .gw op => op.Typed
+  | .deliver .. => True
+
+/-! #### helpers for `app_effect_was_signed` -/
+
+theorem xtrace_cons (x : XWorld) (op : XOp σ) (ops : List (XOp σ)) :
+    xtrace H V x (op :: ops) = (x, op, (xstep H V x op).2) :: xtrace H V (xstep H V x op).1 ops := rfl
+
+/-- a delivery that takes effect found the approval of exactly what the application claims -/
+theorem xstep_deliver_true (x : XWorld) (app : Addr) (c i sa p : Bytes)
+    (h : (xstep H V x (.deliver app c i sa p)).2 = true) :
+    x.w.st.approvals c i = .approved (messageHash H (claimed H app c i sa p)) := by
+  simp only [xstep] at h
+  split at h
+  · rename_i gw' eff' evs he
+    exact (app_effect_iff H x.w.st app (x.eff app) c i sa p).mp ⟨_, he⟩
+  · simp at h
+
+/-- every typed step preserves the invariant of C01 -/
+theorem xstep_inv (x : XWorld) (op : XOp σ) (hty : op.Typed) (hinv : Cgp.Props.C01.AInv H x.w.st) :
+    Cgp.Props.C01.AInv H (xstep H V x op).1.w.st := by
+  cases op with
+  | gw op => exact Cgp.Props.C01.AInv_step H V x.w op hty hinv
+  | deliver app c' i' sa p =>
+    simp only [xstep]
+    split
+    · rename_i gw' eff' evs he
+      rw [appExecute_eq] at he
+      split at he
+      · injection he with he
+        injection he with he1 _
+        subst he1
+        exact Cgp.Props.C01.AInv_sameAuth H _ _ hinv ⟨rfl, rfl, rfl, rfl⟩
+      · cases he
+    · exact hinv
+
+/-- one step of a history: an `approved h` record after the step was there before, or the step was a successful
+    `approve_messages` with a valid proof whose batch contains a message with that key and hash -/
+theorem xstep_approved (x : XWorld) (op : XOp σ) (hty : op.Typed) (hinv : Cgp.Props.C01.AInv H x.w.st) (c i h : Bytes)
+    (h1 : (xstep H V x op).1.w.st.approvals c i = .approved h) :
+    x.w.st.approvals c i = .approved h ∨
+    (∃ ms proof m, op = .gw (.approve ms proof) ∧ m ∈ ms ∧ m.sourceChain = c ∧ m.messageId = i ∧
+        messageHash H m = h ∧ ProofValid H V x.w.st (approveDataHash H ms) proof) ∨ Collision H := by
+  cases op with
+  | gw op =>
+    rcases Cgp.Props.C01.step_approved H V x.w op hty hinv c i h h1 with h2 | ⟨ms, proof, evs, m, rfl, _, hr⟩ | hcol
+    · exact Or.inl h2
+    · exact Or.inr (Or.inl ⟨ms, proof, m, rfl, hr⟩)
+    · exact Or.inr (Or.inr hcol)
+  | deliver app c' i' sa p =>
+    left
+    simp only [xstep] at h1
+    split at h1
+    · rename_i gw' eff' evs he
+      obtain ⟨_, hx, hne, _⟩ := app_effect_exact H _ _ _ _ _ _ _ _ _ _ he
+      by_cases hci : c = c' ∧ i = i'
+      · obtain ⟨rfl, rfl⟩ := hci
+        simp only at h1
+        rw [hx] at h1; cases h1
+      · simp only at h1
+        rw [hne c i hci] at h1
+        exact h1
+    · exact h1
+
+theorem xtrace_signed (ops : List (XOp σ)) : ∀ (x0 : XWorld), Cgp.Props.C01.AInv H x0.w.st → (∀ op ∈ ops, op.Typed) →
+    ∀ (pre post : List (XWorld × XOp σ × Bool)) (x : XWorld) (app : Addr) (c i sa p : Bytes),
+    xtrace H V x0 ops = pre ++ (x, .deliver app c i sa p, true) :: post →
+    x0.w.st.approvals c i = .approved (messageHash H (claimed H app c i sa p)) ∨
+    (∃ xa ms proof b m, (xa, XOp.gw (.approve ms proof), b) ∈ pre ∧ m ∈ ms ∧
+        m.sourceChain = c ∧ m.messageId = i ∧ messageHash H m = messageHash H (claimed H app c i sa p) ∧
+        ProofValid H V xa.w.st (approveDataHash H ms) proof)
+    ∨ Collision H := by
+  induction ops with
+  | nil =>
+    intro x0 _ _ pre post x app c i sa p ht
+    simp [xtrace] at ht
+  | cons op ops ih =>
+    intro x0 hinv hty pre post x app c i sa p ht
+    rw [xtrace_cons] at ht
+    have hop : op.Typed := hty op List.mem_cons_self
+    cases pre with
+    | nil =>
+      simp only [List.nil_append, List.cons.injEq, Prod.mk.injEq] at ht
+      obtain ⟨⟨rfl, rfl, hb⟩, _⟩ := ht
+      exact Or.inl (xstep_deliver_true H V x0 app c i sa p hb)
+    | cons e pre' =>
+      simp only [List.cons_append, List.cons.injEq] at ht
+      obtain ⟨rfl, ht⟩ := ht
+      rcases ih (xstep H V x0 op).1 (xstep_inv H V x0 op hop hinv) (fun o ho => hty o (List.mem_cons_of_mem _ ho))
+          pre' post x app c i sa p ht with h1 | ⟨xa, ms, proof, b, m, hmem, hr⟩ | hcol
+      · rcases xstep_approved H V x0 op hop hinv c i _ h1 with h2 | ⟨ms, proof, m, rfl, hr⟩ | hcol
+        · exact Or.inl h2
+        · exact Or.inr (Or.inl ⟨x0, ms, proof, _, m, List.mem_cons_self, hr⟩)
+        · exact Or.inr (Or.inr hcol)
+      · exact Or.inr (Or.inl ⟨xa, ms, proof, b, m, List.mem_cons_of_mem _ hmem, hr⟩)
+      · exact Or.inr (Or.inr hcol)
+
+/-- **every effect of every application was signed**: in every history that starts from a freshly constructed gateway
+    (typed sets and submissions), each delivery that takes effect at an application is preceded by a successful
+    `approve_messages` call whose batch contains a message with this chain and id and the very message hash of what the
+    application claims to execute (so, by C01's `messageHash_binds`, that very message: same source address, this application as
+    destination, hash of exactly this payload), under a proof valid at that moment (C01's `ProofValid`) — or a hash
+    collision is exhibited. -/
+theorem app_effect_was_signed (owner operator : Addr) (domain : Bytes) (minDelay retention : Nat) (sets : List WSigners)
+    (now : Nat) (x0 : XWorld) (hsets : ∀ ws ∈ sets, ws.Typed)
+    (hc : constructed H owner operator domain minDelay retention sets now = some x0.w)
+    (ops : List (XOp σ)) (hty : ∀ op ∈ ops, op.Typed)
+    (pre post : List (XWorld × XOp σ × Bool)) (x : XWorld) (app : Addr) (c i sa p : Bytes)
+    (ht : xtrace H V x0 ops = pre ++ (x, .deliver app c i sa p, true) :: post) :
+    (∃ xa ms proof b m, (xa, XOp.gw (.approve ms proof), b) ∈ pre ∧ m ∈ ms ∧
+        m.sourceChain = c ∧ m.messageId = i ∧ messageHash H m = messageHash H (claimed H app c i sa p) ∧
+        ProofValid H V xa.w.st (approveDataHash H ms) proof)
+    ∨ Collision H := by
+  have hinv := Cgp.Props.C01.AInv_constructed H owner operator domain minDelay retention sets now x0.w hsets hc
+  have h0 := Cgp.Props.C01.constructed_no_approvals H owner operator domain minDelay retention sets now x0.w hc c i
+  rcases xtrace_signed H V ops x0 hinv hty pre post x app c i sa p ht with h1 | h1
+  · rw [h0] at h1; cases h1
+  · exact h1
+
 
 end Cgp.Props.C16
